@@ -570,6 +570,7 @@ DnsMessage::decodeNameWithLoopDetection(const std::uint8_t *data, std::size_t of
   name.clear();
   std::size_t originalOffset = offset;
   bool jumped = false;
+  bool terminated = false;
   std::size_t totalLength = 0;
 
   while (offset < size)
@@ -611,6 +612,7 @@ DnsMessage::decodeNameWithLoopDetection(const std::uint8_t *data, std::size_t of
     if (length == 0)
     {
       offset++;
+      terminated = true;
       break;
     }
 
@@ -637,6 +639,14 @@ DnsMessage::decodeNameWithLoopDetection(const std::uint8_t *data, std::size_t of
       throw DnsParseException("Domain name too long: " + std::to_string(totalLength) + " (max " +
                               std::to_string(constants::DNS_MAX_NAME_SIZE) + ")");
     }
+  }
+
+  // The loop also ends when the labels run up to the end of the message: a name
+  // without its root label is malformed, not a shorter name.
+  if (!terminated)
+  {
+    throw DnsParseException("Domain name not terminated within message (size " +
+                            std::to_string(size) + ")");
   }
 
   return jumped ? originalOffset : offset;
